@@ -663,6 +663,19 @@ theorem neg_operand_unchanged [Div R] (isView : Bool) (b : Mat R) (i j : Nat) :
   refine ⟨?_, ?_, ?_, ?_⟩ <;> simp [negObj, Gen.mnegResult, Gen.vnegResult, h]
 
 example := neg_operand_unchanged (R := Int) true ⟨1, 1, fun _ _ => 3⟩ 0 0
+
+/-- binary `+` and `-` of vectors take both operands as input only: whatever kind of object the first operand is (an owning
+vector or the scalar view `asVector(s)`), its storage afterwards is what it was, and the result is the entrywise sum /
+difference.  (Needs `Gen.vplusResult = Gen.vminusResult = .autonomous`: with `derived_type z = asImp()` the "copy" of a scalar
+view is a second handle and `z += b` changes the viewed scalar.) -/
+theorem vplus_vminus_operand_unchanged [Div R] (isView : Bool) (a : Vec R) (b : Nat → R) :
+    (binObj Gen.vplusResult isView a (vPlus a b)).2 = a ∧ (binObj Gen.vminusResult isView a (vMinus a b)).2 = a
+    ∧ (binObj Gen.vplusResult isView a (vPlus a b)).1 = vPlus a b ∧ (binObj Gen.vminusResult isView a (vMinus a b)).1 = vMinus a b := by
+  refine ⟨?_, ?_, ?_, ?_⟩ <;> simp [binObj, Gen.vplusResult, Gen.vminusResult]
+
+-- what `derived_type z = asImp()` did to a scalar view: the viewed scalar itself received the sum
+example : ((binObj .sameType true (⟨1, fun _ => 3⟩ : Vec Int) ⟨1, fun _ => 7⟩).2.get 0, (binObj .autonomous true (⟨1, fun _ => 3⟩ : Vec Int) ⟨1, fun _ => 7⟩).2.get 0)
+    = (7, 3) := by decide
 -- what the previous declaration `MAT result = asImp()` did to a scalar view: the viewed scalar itself was negated
 example : ((negObj .sameType true (⟨1, 1, fun _ _ => 3⟩ : Mat Int)).2.e 0 0, (negObj .autonomous true (⟨1, 1, fun _ _ => 3⟩ : Mat Int)).2.e 0 0)
     = (-3, 3) := by decide
